@@ -300,6 +300,20 @@ impl Check for Rates {
             detail["bloom_len_rel_err_sd"] = json!(l.sd);
         }
         let inner = (c.seeds as u64) * (c.probes as u64);
+        if let Some(k) = self.known.lookup("C07", &c.sig()) {
+            // a recorded finding: always reported as such (with this run's measurement); it is a
+            // violation only above the recorded ceiling (in units of the bound)
+            let ceil = k.ceiling.unwrap_or(f64::INFINITY);
+            let msg = format!("{}: measured false-positive frequency {:.3e} +- {:.1e} over {} seeds x {} probes = {:.3} x bound ({:.3e}), recorded ceiling {} x bound", c.sig(), s1.mean, s1.se, c.seeds, c.probes, s1.mean / b1, b1, ceil);
+            if s1.mean - Z * s1.se > ceil * b1 {
+                let m2 = measure(c, mix_str(c.seed, "confirm"), 4 * c.seeds);
+                let (s2, b2, _, _, _) = judge(&m2);
+                if s2.mean - Z * s2.se > ceil * b2 {
+                    return fail(format!("{}:above-recorded-ceiling", c.sig()), format!("{} — confirmed {:.3e} +- {:.1e}: above the ceiling recorded for this known finding", msg, s2.mean, s2.se));
+                }
+            }
+            return fail(c.sig(), msg);
+        }
         if !flag1 && !lflag1 {
             return Verdict::Pass(Info::new(powered, hash64(&c.sig())).class(kind).class_if(powered, "powered").detail(detail).inner(inner));
         }
@@ -322,14 +336,6 @@ impl Check for Rates {
             "{}: false-positive frequency {:.3e} +- {:.1e} (s.e. over {} seeds x {} probes) exceeds the bound {:.3e} (ratio {:.3}); first measurement {:.3e}",
             sig, s2.mean, s2.se, 4 * c.seeds, c.probes, b2, s2.mean / b2, s1.mean
         );
-        if let Some(k) = self.known.lookup("C07", &sig) {
-            if let Some(ceil) = k.ceiling {
-                // the recorded finding tolerates the cell up to its ceiling (in units of the bound)
-                if s2.mean - Z * s2.se > ceil * b2 {
-                    return fail(format!("{}:above-recorded-ceiling", sig), format!("{} — this is above the ceiling {} x bound recorded for the known finding", msg, ceil));
-                }
-            }
-        }
         fail(sig, msg)
     }
 }
